@@ -26,6 +26,32 @@ def correspondence(ctx):
                  "(adjacent, nested-looking, dangling, unknown names), dictionaries of 0-6 entries with valid and invalid names, "
                  "values that are markers themselves; each case run 4 times with differently built maps. "
                  "non-trivial = non-empty dictionary and at least one step or inspection; distinct = distinct input JSON")
+    if ctx.tier == 'thorough':
+        # string level: 200 000 random (text, dictionary) pairs through SubstituteParameters, the extracted
+        # replacer model and the extracted declarative spec
+        V.sh([os.path.join(V.ROOT, 'tools', 'build_extract.sh'), 'subst'], check=True)
+        fin, fimpl = os.path.join(ctx.dir, 'hex.in'), os.path.join(ctx.dir, 'hex.impl')
+        rc, o = ctx.run([binp, 'genhex', fin, fimpl, '200000'])
+        if rc != 0:
+            raise V.BuildError('c18 genhex failed: ' + o[-2000:])
+        rc, o = V.sh(os.path.join(V.BUILD, 'extract', 'subst', 'subst_driver') + ' < ' + fin, timeout=1800)
+        if rc != 0:
+            raise V.BuildError('subst_driver failed: ' + o[-2000:])
+        ins = open(fin).read().split('\n')
+        impl = open(fimpl).read().split('\n')
+        distinct = set()
+        for k, line in enumerate(o.strip().split('\n')):
+            m, sp = line.split(' ')
+            distinct.add(ins[k])
+            case = {'id': k, 'klass': 'string-level', 'input': {'hex_line': ins[k]}}
+            if impl[k] != sp:
+                corr.violations.append({'klass': 'string-level', 'case': case, 'impl': impl[k], 'expected': sp,
+                                        'what': 'SubstituteParameters differs from the declarative single pass (extracted spec)'})
+            elif impl[k] != m:
+                corr.disagreements.append({'klass': 'string-level', 'case': case, 'impl': impl[k], 'model': m})
+        corr.evaluations += 200000
+        corr.distinct_nontrivial += len(distinct)
+        corr.extra['string_level_cases'] = 200000
     return corr
 
 
